@@ -521,7 +521,14 @@ func runC05(c *Ctx) {
 	core = lg.Core()
 	sug := lg.Sugar()
 	sl := slog.New(zapslog.NewHandler(core))
+	// the gRPC adapter, one time in three built with WithDebug(): its Print
+	// family then logs at Debug level, everything else as before
+	grpcDebug := g.Chance(3)
 	gl := zapgrpc.NewLogger(lg)
+	if grpcDebug {
+		gl = zapgrpc.NewLogger(lg, zapgrpc.WithDebug())
+		c.Describe("grpc adapter built WithDebug()")
+	}
 
 	nTasks := 1
 	if g.Chance(3) {
@@ -677,15 +684,23 @@ func runC05(c *Ctx) {
 			switch {
 			case l <= zapcore.InfoLevel:
 				l = zapcore.InfoLevel
-				switch int(op.level) & 3 {
+				variant := (int(op.level)&7 + len(op.msg)) % 6
+				if variant >= 3 && grpcDebug {
+					l = zapcore.DebugLevel
+				}
+				switch variant {
 				case 0:
 					gl.Info(op.msg)
 				case 1:
 					gl.Infoln(op.msg)
 				case 2:
 					gl.Infof("%s", op.msg)
-				default:
+				case 3:
 					gl.Println(op.msg)
+				case 4:
+					gl.Print(op.msg)
+				default:
+					gl.Printf("%s", op.msg)
 				}
 			case l == zapcore.WarnLevel:
 				switch int(op.front+len(op.msg)) % 3 {
